@@ -50,6 +50,12 @@ f0 = func() { return 1 }
 f1 = func(x) { return x }
 f5 = func(a, b, c, d, e) { return a }
 fv = func(x...) { return len(x) }
+ll = [[1, 2]]
+lm = [{"k": 1}]
+lf = [f1]
+ci = make(chan interface, 2)
+ci <- [1, 2]
+ci <- [3]
 `
 
 var prologueStmt ast.Stmt
